@@ -728,6 +728,56 @@ def corr_parse(ck):
 
 
 # ----------------------------------------------------------------------------------------------------------------
+# correspondence 5b: the four regular expressions of _query_parse against the scanners that stand for them in the translated
+# function (the only hand-modelled part of _query_parse left), and int() on the digit groups
+
+RE_ALPHA = '+-14:@?;C05'
+SCAN_EXTRA = '''From Gen Require Import QueryParseBody.
+Open Scope string_scope.
+Definition show_m (o : option mobj) : string :=
+  match o with None => "-" | Some m => show_z (g_len (m_pre m)) ++ "." ++ show_z (g_len (m_pre m) + g_len (m_grp m)) end.
+Definition show_int (r : pyres Z) : string := match r with Ok n => show_z n | Err _ => "!" end.
+Definition show_scans (s : str) : string :=
+  "i" ++ show_m (re_match_iso_re s) ++ "=" ++ match re_match_iso_re s with Some m => show_int (g_int (m_grp m)) | None => "" end ++
+  "c" ++ show_m (re_search_chg_re s) ++
+  "m" ++ show_m (re_search_mpp_re s) ++ "=" ++ match re_search_mpp_re s with Some m => show_int (g_int (tl (m_grp m))) | None => "" end ++
+  "s" ++ show_m (re_search_str_re s).
+Definition sw_scans (prefix alpha : string) := batch (fun s => show_scans (s2l s)) (sweep prefix alpha).
+Close Scope string_scope.'''
+
+
+def real_scans(s):
+    from re import match, search
+    from chython.files.daylight import tokenize as tk
+    def sm(m):
+        return '-' if m is None else f'{m.start()}.{m.end()}'
+    def si(f):
+        try:
+            return str(f())
+        except Exception:
+            return '!'
+    i, c, m, st = match(tk.iso_re, s), search(tk.chg_re, s), search(tk.mpp_re, s), search(tk.str_re, s)
+    return ('i' + sm(i) + '=' + (si(lambda: int(i.group())) if i else '') + 'c' + sm(c) +
+            'm' + sm(m) + '=' + (si(lambda: int(m.group()[1:])) if m else '') + 's' + sm(st))
+
+
+def corr_regex(ck):
+    rng = random.Random(f'{ck.seed}:c08-regex')
+    bt = Batches('c08_scan', extra=f'Definition al : string := {cstr(RE_ALPHA)}.\n' + SCAN_EXTRA)
+    prefixes = [''] + [''.join(t) for k in ((1, 2) if ck.tier == 'quick' else (1, 2, 3)) for t in itertools.product(RE_ALPHA, repeat=k)]
+    prefixes += [''.join(rng.choice(RE_ALPHA) for _ in range(rng.choice([3, 4, 5, 7]))) for _ in range(160 if ck.tier == 'quick' else 3000)]
+    for pre in dict.fromkeys(prefixes):
+        rows = [real_scans(pre + c) for c in RE_ALPHA]
+        for c, r in zip(RE_ALPHA, rows):
+            ck.case(('scan', pre + c), nontrivial=r != 'i-=c-m-=s-')
+        bt.add(f'sw_scans {cstr(pre)} al {cstr(chr(10).join(rows))}', (pre, rows))
+    ck.count('scan:strings', len(bt.cases) * len(RE_ALPHA))
+    ok, bad, log = bt.run()
+    return conclude(ck, 're.match(iso_re) / re.search(chg_re, mpp_re, str_re) (span of the leftmost match) and int() of the digit groups == the '
+                        'scanners of the translated _query_parse (every string of length <= 3 over 11 characters, sampled longer)', bt, ok, bad, log)
+
+
+# ----------------------------------------------------------------------------------------------------------------
 # property-level oracle for bracket atoms: an independent reader of canonical bodies
 
 HEAD = re.compile(r'^(?P<iso>[1-9][0-9]*)?(?P<el>[A-Z][a-z]?(?:,[A-Z][a-z]?)*|#[0-9]+(?:,#[0-9]+)*)(?P<st>@@?)?(?P<chg>\+\+?|--?|[+-][1-4])?$')
@@ -1451,13 +1501,146 @@ def search_rdkit(ck):
     ck.count('rdkit:atoms-skipped-oracles-disagree', disagreements)
 
 
+# ----------------------------------------------------------------------------------------------------------------
+# the statement translators are sensitive: every single-edit mutant of the translated source region either fails closed or
+# changes the generated Gallina text (so the tie theorem is re-checked against a different function)
+
+SENS = [('gen_queryparse', 'chython/files/daylight/tokenize.py', None, '_query_parse'),
+        ('gen_queryeq', 'chython/periodictable/base/query.py', ('QueryElement', 'AnyElement', 'ListElement', 'AnyMetal'), '__eq__'),
+        ('gen_labels', 'chython/containers/molecule.py', ('MoleculeContainer',), 'calc_labels')]
+
+
+def _mutants(fn, region=None, skip_lines=()):
+    """(description, apply, undo) for single edits of the function node (applied in place, undone afterwards)"""
+    import ast
+    out = []
+    def inside(n):
+        return (region is None or (region[0] <= getattr(n, 'lineno', 0) <= region[1])) and getattr(n, 'lineno', 0) not in skip_lines
+    raise_consts = {id(c) for r in ast.walk(fn) if isinstance(r, ast.Raise) for c in ast.walk(r) if isinstance(c, ast.Constant)}
+    doc = fn.body[0].value if fn.body and isinstance(fn.body[0], ast.Expr) and isinstance(fn.body[0].value, ast.Constant) else None
+    for parent in ast.walk(fn):
+        for field in ('body', 'orelse'):
+            stmts = getattr(parent, field, None)
+            if not isinstance(stmts, list):
+                continue
+            for i, st in enumerate(list(stmts)):
+                if not isinstance(st, ast.stmt) or not inside(st):
+                    continue
+                if isinstance(st, (ast.Continue, ast.Break)):
+                    other = ast.Break() if isinstance(st, ast.Continue) else ast.Continue()
+                    out.append((f'line {st.lineno}: {type(st).__name__.lower()} -> {type(other).__name__.lower()}',
+                                lambda stmts=stmts, i=i, other=other: stmts.__setitem__(i, other), lambda stmts=stmts, i=i, st=st: stmts.__setitem__(i, st)))
+                if isinstance(st, (ast.Assign, ast.AugAssign, ast.Raise)) or (isinstance(st, ast.If) and not st.orelse):
+                    if isinstance(st, ast.Assign) and isinstance(st.targets[0], ast.Attribute) and st.targets[0].attr == '_in_ring':
+                        continue        # the ring mark of the bond: documented as left out of the label translation
+                    out.append((f'line {st.lineno}: statement deleted ({type(st).__name__})',
+                                lambda stmts=stmts, i=i: stmts.__setitem__(i, ast.Pass()), lambda stmts=stmts, i=i, st=st: stmts.__setitem__(i, st)))
+                if isinstance(st, ast.If):
+                    t = st.test
+                    out.append((f'line {st.lineno}: if-test negated', lambda st=st, t=t: setattr(st, 'test', ast.UnaryOp(op=ast.Not(), operand=t)),
+                                lambda st=st, t=t: setattr(st, 'test', t)))
+    swap = {ast.Eq: ast.NotEq, ast.NotEq: ast.Eq, ast.In: ast.NotIn, ast.NotIn: ast.In, ast.Gt: ast.GtE, ast.Lt: ast.LtE}
+    for n in ast.walk(fn):
+        if not inside(n):
+            continue
+        if isinstance(n, ast.Compare) and type(n.ops[0]) in swap:
+            o = n.ops[0]
+            out.append((f'line {n.lineno}: {type(o).__name__} -> {swap[type(o)].__name__}', lambda n=n, o=o: n.ops.__setitem__(0, swap[type(o)]()),
+                        lambda n=n, o=o: n.ops.__setitem__(0, o)))
+        if isinstance(n, ast.Constant) and n is not doc and id(n) not in raise_consts and type(n.value) in (int, str, bool):
+            v = n.value
+            nv = (not v) if type(v) is bool else v + 1 if type(v) is int else ('Q' if v != 'Q' else 'W')
+            out.append((f'line {n.lineno}: literal {v!r} -> {nv!r}', lambda n=n, nv=nv: setattr(n, 'value', nv), lambda n=n, v=v: setattr(n, 'value', v)))
+        if isinstance(n, ast.BoolOp):
+            o = n.op
+            out.append((f'line {n.lineno}: and <-> or', lambda n=n, o=o: setattr(n, 'op', ast.Or() if isinstance(o, ast.And) else ast.And()),
+                        lambda n=n, o=o: setattr(n, 'op', o)))
+    return out
+
+
+def translator_sensitivity(ck):
+    import ast
+    import importlib
+    import os
+    import shutil
+    import tempfile
+    from coqfmt import TranslatorError
+    tmp = tempfile.mkdtemp(prefix='c08_sens_')
+    try:
+        for modname, rel, classes, fname in SENS:
+            mod = importlib.import_module(modname)
+            src = open(os.path.join(common.REPO, rel)).read()
+            tree = ast.parse(src)
+            fns = []
+            for node in tree.body:
+                if classes is None and isinstance(node, ast.FunctionDef) and node.name == fname:
+                    fns.append(node)
+                elif classes and isinstance(node, ast.ClassDef) and node.name in classes:
+                    fns += [f for f in node.body if isinstance(f, ast.FunctionDef) and f.name == fname and not f.decorator_list]
+            dest = os.path.join(tmp, modname + '.v')
+            os.makedirs(os.path.join(tmp, os.path.dirname(rel)), exist_ok=True)
+            def translate():
+                with open(os.path.join(tmp, rel), 'w') as f:
+                    f.write(ast.unparse(tree))
+                if os.path.exists(dest):
+                    os.remove(dest)
+                try:
+                    mod.main(tmp, dest)
+                except TranslatorError:
+                    return None
+                except Exception as e:      # any other failure of the translator is also a refusal
+                    return None
+                return open(dest).read()
+            base = translate()
+            if base is None or not fns:
+                ck.count(f'sensitivity:{modname}:skipped (source not translatable)')
+                continue
+            region = None
+            if modname == 'gen_labels':     # only the loop over the bonds of an atom is translated
+                loops = [x for x in ast.walk(fns[0]) if isinstance(x, ast.For)]
+                outer = loops[0]
+                region = (outer.body[0].lineno, max(x.end_lineno for x in outer.body if any(
+                    isinstance(y, ast.Name) and y.id in ('neighbors', 'heteroatoms', 'hybridization', 'explicit_hydrogens') for y in ast.walk(x))))
+            skip = set()
+            if modname == 'gen_labels':     # ... and of it the four counters: the ring marks (bond._in_ring and the names it reads) are left out
+                counters = ('neighbors', 'heteroatoms', 'hybridization', 'explicit_hydrogens')
+                skip = {x.lineno for x in ast.walk(fns[0]) if isinstance(x, ast.Assign) and (
+                    (isinstance(x.targets[0], ast.Attribute) and x.targets[0].attr == '_in_ring') or
+                    (isinstance(x.targets[0], ast.Name) and x.targets[0].id not in counters))}
+            silent, n, closed = [], 0, 0
+            for fn in fns:
+                for k_, (what, apply, undo) in enumerate(_mutants(fn, region, skip)):
+                    if ck.tier == 'quick' and (k_ + ck.seed) % 2:
+                        continue        # quick: every second mutant (which half depends on the seed), thorough: all
+                    apply()
+                    try:
+                        got = translate()
+                    finally:
+                        undo()
+                    n += 1
+                    ck.case(('sensitivity', modname, fn.lineno, what), nontrivial=got is not None)
+                    if got is None:
+                        closed += 1
+                    elif got == base:
+                        silent.append(what)
+            ck.count(f'sensitivity:{modname}:mutants', n)
+            ck.count(f'sensitivity:{modname}:fail-closed', closed)
+            ck.oblige(f'translator {modname}: every single-edit mutant of the translated source region fails closed or changes the generated function '
+                      '(mutants: statement deleted, if-test negated, comparison flipped, literal changed, and/or swapped, continue/break swapped)',
+                      not silent, 'translator', '; '.join(silent[:20]) or f'{n} mutants, {closed} refused by the translator')
+    finally:
+        shutil.rmtree(tmp, ignore_errors=True)
+
+
 def run(ck):
-    ck.trusted += ['translators tools/gen_smarts.py, tools/gen_tokens.py, tools/gen_elements.py (Python ast)',
+    ck.trusted += ['translators tools/gen_smarts.py, tools/gen_tokens.py, tools/gen_elements.py, tools/gen_queryparse.py, tools/gen_queryeq.py, tools/gen_labels.py (Python ast)',
                    'correspondence runner harness/checks/C08.py + harness/coqcases.py', 'CachedMethods shim harness/boot.py', 'CPython 3.12.1',
                    'RDKit 2026.3 and the Python reference oracles of harness/checks/C08.py (search only)']
-    ck.assumptions += ['the comparison methods, calc_labels, _query_parse, the class dispatch / setters of smarts() and _tokenize are hand-modelled '
+    ck.assumptions += ['the comparison methods, calc_labels, the class dispatch / setters of smarts() and _tokenize are hand-modelled '
                        '(coq/model/Query.v, Smarts.v, Tokenize.v); tie = correspondence by vm_compute on exhaustive small spaces, generated, corpus '
-                       'and malformed inputs; constants and tables come from the translators',
+                       'and malformed inputs; constants, tables and branch conditions come from the translators; the body of _query_parse is '
+                       'translated statement by statement (tools/gen_queryparse.py) and proved equal to the hand model (its four regular '
+                       'expressions and int() stay hand-modelled scanners, tied by correspondence)',
                        'the SSSR is an input of the label model (C06); implicit hydrogens are an input (C04)',
                        'parser(), QueryContainer and the CXSMARTS / stereo part of smarts() are not modelled: search only',
                        'domain of the string models: ASCII without white space, fewer than 4300 digits per number']
@@ -1467,11 +1650,11 @@ def run(ck):
                         '_tokenize; every bond text of length <= 4 over 9 characters. search: generated SMARTS and one-character mutations (exception class, '
                         'denotation of linear patterns), canonical bracket bodies read by an independent regular expression, every primitive on corpus atoms '
                         'against RDKit attributes. non-trivial = a match / an accepted input')
-    proved = common.standard_proof_steps(ck, translators=['smarts', 'tokens', 'elements'], extra_targets=['model/SmartsFull.vo'])
+    proved = common.standard_proof_steps(ck, translators=['smarts', 'tokens', 'elements', 'queryparse', 'queryeq', 'labels'], extra_targets=['model/SmartsFull.vo'])
     tied = True
     import time
     timing = {}
-    for fn in (corr_match, corr_from_atom, corr_api, corr_bonds, corr_full, corr_cx, corr_add_copy, corr_labels, corr_parse, corr_tokens, corr_bond_spellings):
+    for fn in (corr_match, corr_from_atom, corr_api, corr_bonds, corr_full, corr_cx, corr_add_copy, corr_labels, corr_parse, corr_regex, corr_tokens, corr_bond_spellings):
         t0 = time.time()
         tied = fn(ck) and tied
         timing[fn.__name__] = round(time.time() - t0, 1)
@@ -1479,6 +1662,12 @@ def run(ck):
         t0 = time.time()
         fn(ck)
         timing[fn.__name__] = round(time.time() - t0, 1)
+    t0 = time.time()
+    try:
+        translator_sensitivity(ck)
+    except Exception as e:      # a source shape the mutation operators do not handle: the translators themselves fail closed above
+        ck.count(f'sensitivity:skipped ({type(e).__name__})')
+    timing['translator_sensitivity'] = round(time.time() - t0, 1)
     ck.extra['timing_s'] = timing
     ck.extra['proved'] = proved
     ck.extra['tied'] = tied
